@@ -61,9 +61,19 @@ def check_children_inside(children, lo, hi, where, out):
         cur = max(cur, n.pos_end)
 
 
-def check_node(s, n, out, strict=True):
+def _standard_arg_parser(argspec):
+    """is this argument read by the general delimited-group / single-token machinery?  Arguments
+    of the other parser classes (comma-separated list, embellishments, ...) are wrapped by the
+    library in synthetic groups that deliberately leave out separators and skipped blanks, so
+    their bodies need not tile (children must still be inside, ordered, non-overlapping)."""
+    p = getattr(argspec, 'parser', None)
+    return isinstance(p, str) and not p.startswith('e')
+
+
+def check_node(s, n, out, strict=True, loose=False):
     """Anchoring of one node against the source and recursion into children.
-    strict=False: only range/nesting (what tolerant results must satisfy)."""
+    strict=False: only range/nesting (what tolerant results must satisfy).
+    loose=True: n is a synthetic wrapper made by a non-standard argument parser."""
     k = _kind(n)
     if k == 'list':
         nodes = [x for x in _items(n)]
@@ -72,7 +82,7 @@ def check_node(s, n, out, strict=True):
         check_children_inside(nodes, lo, hi, 'list', out)
         for x in nodes:
             if x is not None:
-                check_node(s, x, out, strict)
+                check_node(s, x, out, strict, loose)
         return
     if k.startswith('other:'):
         out.append(('foreign-object', 'object of type %s in tree' % k[6:]))
@@ -115,7 +125,7 @@ def check_node(s, n, out, strict=True):
                       and len(src) >= len(d[0]) + len(d[1])):
                 out.append(('anchor:' + k, 'slice %r does not start/end with delimiters %r'
                             % (src, d)))
-            else:
+            elif not loose:
                 check_tiling(body, pos + len(d[0]), pe - len(d[1]), k + '-body', out)
         check_children_inside(body, pos, pe, k, out)
         for x in body:
@@ -168,8 +178,11 @@ def check_node(s, n, out, strict=True):
     # a list-valued argument is itself a span
     check_children_inside([c for c in allch if getattr(c, 'pos', None) is not None],
                           pos, pe, k, out)
+    specs = list(getattr(nad, 'arguments_spec_list', None) or []) if nad is not None else []
+    loose_ids = set(id(a) for i, a in enumerate(args)
+                    if a is not None and i < len(specs) and not _standard_arg_parser(specs[i]))
     for c in allch:
-        check_node(s, c, out, strict)
+        check_node(s, c, out, strict, loose=(id(c) in loose_ids))
     if strict and k == 'environment' and body is not None:
         m2 = _rx_end.search(src)
         if m2:
